@@ -469,7 +469,7 @@ func (p c02) leafrefs(c *core.Ctx, idx int) {
 	r := c.Rand
 	targets := []struct{ typ, format string }{{"type int32;", "int32"}, {"type string;", "string"}, {"type tt;", "uint16"}, {"type enumeration { enum a; }", "enumeration"}, {"type boolean;", "boolean"}}
 	t := targets[r.Intn(len(targets))]
-	variant := r.Intn(6)
+	variant := r.Intn(9)
 	var body, extra string
 	mods := map[string]string{}
 	nExp := 1
@@ -487,6 +487,12 @@ func (p c02) leafrefs(c *core.Ctx, idx int) {
 		extra = "  typedef lr { type leafref { path \"../tgt\"; } }\n"
 		body = fmt.Sprintf("  grouping g { leaf tgt { %s } leaf x { type lr; } }\n  container c0 { uses g; }\n  container c1 { uses g; }\n", t.typ)
 		nExp = 2
+	case 6: // out of a case: choice and case are not steps of the data path
+		body = fmt.Sprintf("  container c { leaf tgt { %s } choice ch { case one { leaf x { type leafref { path \"../tgt\"; } } } case two { leaf other { type string; } } } }\n", t.typ)
+	case 7: // between two cases' members and from a nested choice
+		body = fmt.Sprintf("  container c { choice ch { case one { leaf tgt { %s } choice inner { case i1 { leaf x { type leafref { path \"../tgt\"; } } } } } } }\n", t.typ)
+	case 8: // two levels up from inside a case of a nested container
+		body = fmt.Sprintf("  container c { leaf tgt { %s } container d { choice ch { leaf x { type leafref { path \"../../tgt\"; } } } } }\n", t.typ)
 	case 5: // into an imported module
 		tt := t.typ
 		if strings.Contains(tt, "tt;") {
@@ -515,7 +521,7 @@ func (p c02) leafrefs(c *core.Ctx, idx int) {
 	if c.Guard("load", func() { m, err = c02load(mods) }) {
 		return
 	}
-	vname := []string{"relative", "forward", "absolute-into-list", "leafref-to-leafref", "typedef-in-grouping-x2", "imported-module"}[variant]
+	vname := []string{"relative", "forward", "absolute-into-list", "leafref-to-leafref", "typedef-in-grouping-x2", "imported-module", "out-of-a-case", "inside-nested-choice", "two-up-from-a-case"}[variant]
 	if err != nil {
 		c.Violate("leafref/load-error/"+vname, "%v\n%s", err, all)
 		return
